@@ -38,10 +38,30 @@ pub fn worker(ctx: &Ctx) {
     if delay_us > 0 {
         std::thread::sleep(std::time::Duration::from_micros(delay_us));
     }
+    let fail_init = ctx.get("fail_init").is_some();
+    if fail_init {
+        // this opener cannot extend files: creating / initialising the database fails for it
+        unsafe {
+            libc::signal(libc::SIGXFSZ, libc::SIG_IGN);
+            let lim = libc::rlimit { rlim_cur: 2048, rlim_max: libc::RLIM_INFINITY };
+            libc::setrlimit(libc::RLIMIT_FSIZE, &lim);
+        }
+    }
     let mut log = WorkerLog { id, outcome: "ok".into(), detail: String::new(), t_call: now_ns(), t_open_ret: 0, t_closing: 0, seen: vec![] };
     let r = util::catch(|| -> Result<(), String> {
         let db = OpenOptions::new().pagesize(1024).num_pages(8).open(&path).map_err(|e| format!("open: {}", e))?;
         log.t_open_ret = now_ns();
+        {
+            // a clone of the handle is used on another thread and dropped: the process still holds the database
+            let c = db.clone();
+            std::thread::spawn(move || {
+                let n = c.tx(false).map(|tx| tx.buckets().count()).unwrap_or(0);
+                drop(c);
+                n
+            })
+            .join()
+            .map_err(|_| "clone thread panicked".to_string())?;
+        }
         {
             let tx = db.tx(true).map_err(|e| format!("tx: {}", e))?;
             {
@@ -66,7 +86,7 @@ pub fn worker(ctx: &Ctx) {
     match r {
         Ok(Ok(())) => return,
         Ok(Err(e)) => {
-            log.outcome = "error".into();
+            log.outcome = if fail_init { "error-expected".into() } else { "error".into() };
             log.detail = e;
         }
         Err(p) => {
@@ -88,6 +108,9 @@ pub struct Proc {
     /// used for orderings that correct locking makes impossible
     #[serde(default)]
     pub soft_ms: u64,
+    /// this opener runs with a tiny file-size limit: initialising a new database fails for it
+    #[serde(default)]
+    pub fail_init: bool,
 }
 
 #[derive(Serialize, Deserialize, Debug, Clone)]
@@ -109,7 +132,7 @@ pub fn forced_cases(thorough: bool) -> Vec<Case> {
                 continue; // an existing file is not written during open
             }
             for b_waits_for in [None, Some("before_mmap#0")] {
-                let a = Proc { soft_ms: 0, delay_us: 0, hold_us: 300, gates: vec![(ap.to_string(), "B-opened".into(), format!("A-at-{}", ai)), ("before_mmap#0".into(), String::new(), "A-at-mmap".into())] };
+                let a = Proc { fail_init: false, soft_ms: 0, delay_us: 0, hold_us: 300, gates: vec![(ap.to_string(), "B-opened".into(), format!("A-at-{}", ai)), ("before_mmap#0".into(), String::new(), "A-at-mmap".into())] };
                 let mut bg = vec![("after_open#0".to_string(), String::new(), "B-opened".to_string())];
                 if let Some(p) = b_waits_for {
                     if *ap == p {
@@ -118,16 +141,16 @@ pub fn forced_cases(thorough: bool) -> Vec<Case> {
                     // B continues past its open64 only after A has reached its mmap (i.e. holds the lock in correct code)
                     bg = vec![("after_open#0".to_string(), "A-at-mmap".to_string(), "B-opened".to_string())];
                     // then A must not wait for B (it would never come): A only signals
-                    let a2 = Proc { soft_ms: 0, delay_us: 0, hold_us: 2000, gates: vec![(ap.to_string(), String::new(), format!("A-at-{}", ai)), ("before_mmap#0".into(), String::new(), "A-at-mmap".into())] };
-                    v.push(Case { label: format!("existing={} A passes {}; B held after its open64 until A maps", existing, ap), existing, procs: vec![a2, Proc { soft_ms: 0, delay_us: 100, hold_us: 100, gates: bg }] });
+                    let a2 = Proc { fail_init: false, soft_ms: 0, delay_us: 0, hold_us: 2000, gates: vec![(ap.to_string(), String::new(), format!("A-at-{}", ai)), ("before_mmap#0".into(), String::new(), "A-at-mmap".into())] };
+                    v.push(Case { label: format!("existing={} A passes {}; B held after its open64 until A maps", existing, ap), existing, procs: vec![a2, Proc { fail_init: false, soft_ms: 0, delay_us: 100, hold_us: 100, gates: bg }] });
                     continue;
                 }
-                v.push(Case { label: format!("existing={} A held at {} until B's open64 returned", existing, ap), existing, procs: vec![a, Proc { soft_ms: 0, delay_us: 200, hold_us: 100, gates: bg.clone() }] });
+                v.push(Case { label: format!("existing={} A held at {} until B's open64 returned", existing, ap), existing, procs: vec![a, Proc { fail_init: false, soft_ms: 0, delay_us: 200, hold_us: 100, gates: bg.clone() }] });
                 if thorough || ai % 2 == 0 {
                     // three processes: C arrives while A is held as well
-                    let a3 = Proc { soft_ms: 0, delay_us: 0, hold_us: 300, gates: vec![(ap.to_string(), "C-opened".into(), format!("A-at-{}", ai))] };
-                    let b3 = Proc { soft_ms: 0, delay_us: 150, hold_us: 200, gates: vec![("after_open#0".into(), String::new(), "B-opened".into())] };
-                    let c3 = Proc { soft_ms: 0, delay_us: 300, hold_us: 100, gates: vec![("after_open#0".into(), "B-opened".into(), "C-opened".into())] };
+                    let a3 = Proc { fail_init: false, soft_ms: 0, delay_us: 0, hold_us: 300, gates: vec![(ap.to_string(), "C-opened".into(), format!("A-at-{}", ai))] };
+                    let b3 = Proc { fail_init: false, soft_ms: 0, delay_us: 150, hold_us: 200, gates: vec![("after_open#0".into(), String::new(), "B-opened".into())] };
+                    let c3 = Proc { fail_init: false, soft_ms: 0, delay_us: 300, hold_us: 100, gates: vec![("after_open#0".into(), "B-opened".into(), "C-opened".into())] };
                     v.push(Case { label: format!("existing={} three processes, A held at {} until B and C called open64", existing, ap), existing, procs: vec![a3, b3, c3] });
                 }
             }
@@ -138,14 +161,20 @@ pub fn forced_cases(thorough: bool) -> Vec<Case> {
     // the size is read the second opener cannot get that far, the soft timeout expires and the run
     // proceeds normally; if the size is read outside the exclusive lock the ordering happens.
     for existing in [false] {
-        let a = Proc { soft_ms: 300, delay_us: 0, hold_us: 200, gates: vec![("after_stat#0".into(), "B-looked".into(), "A-looked".into())] };
-        let b = Proc { soft_ms: 300, delay_us: 150, hold_us: 200, gates: vec![("after_stat#0".into(), "A-looked".into(), "B-looked".into())] };
+        let a = Proc { fail_init: false, soft_ms: 300, delay_us: 0, hold_us: 200, gates: vec![("after_stat#0".into(), "B-looked".into(), "A-looked".into())] };
+        let b = Proc { fail_init: false, soft_ms: 300, delay_us: 150, hold_us: 200, gates: vec![("after_stat#0".into(), "A-looked".into(), "B-looked".into())] };
         v.push(Case { label: "two openers both look at the empty file's size before either initialises it".into(), existing, procs: vec![a.clone(), b.clone()] });
-        let c = Proc { soft_ms: 300, delay_us: 250, hold_us: 100, gates: vec![("after_stat#0".into(), "B-looked".into(), "C-looked".into())] };
+        let c = Proc { fail_init: false, soft_ms: 300, delay_us: 250, hold_us: 100, gates: vec![("after_stat#0".into(), "B-looked".into(), "C-looked".into())] };
         v.push(Case { label: "three openers all look at the empty file's size before any initialises it".into(), existing, procs: vec![a, b, c] });
-        let a2 = Proc { soft_ms: 400, delay_us: 0, hold_us: 100, gates: vec![("after_stat#0".into(), "B-closing".into(), "A-looked".into())] };
-        let b2 = Proc { soft_ms: 0, delay_us: 300, hold_us: 100, gates: vec![("before_close#0".into(), String::new(), "B-closing".into())] };
+        let a2 = Proc { fail_init: false, soft_ms: 400, delay_us: 0, hold_us: 100, gates: vec![("after_stat#0".into(), "B-closing".into(), "A-looked".into())] };
+        let b2 = Proc { fail_init: false, soft_ms: 0, delay_us: 300, hold_us: 100, gates: vec![("before_close#0".into(), String::new(), "B-closing".into())] };
         v.push(Case { label: "an opener that has seen an empty file is held until another opener has created, used and closed the database".into(), existing, procs: vec![a2, b2] });
+        // an opener whose initialisation fails (file-size limit) while a second one is queued on the lock and a
+        // third arrives later: the failure of the first must not let the other two in together
+        let x = Proc { fail_init: true, soft_ms: 300, delay_us: 0, hold_us: 0, gates: vec![("after_stat#0".into(), "Y-opened".into(), "X-looked".into())] };
+        let y = Proc { fail_init: false, soft_ms: 0, delay_us: 300, hold_us: 4000, gates: vec![("after_open#0".into(), String::new(), "Y-opened".into())] };
+        let z = Proc { fail_init: false, soft_ms: 0, delay_us: 2500, hold_us: 300, gates: vec![] };
+        v.push(Case { label: "the first opener fails to initialise the file while a second is queued on the lock; a third arrives later".into(), existing, procs: vec![x, y, z] });
     }
     v
 }
@@ -202,7 +231,10 @@ pub fn run_case(c: &Case, dir: &Path, exe: &Path, shim: &str, n: u64) -> Outcome
             "--set",
             &format!("log={}", sub.join(format!("w{}.json", i)).display()),
         ]);
-        if !p.gates.is_empty() {
+        if p.fail_init {
+            cmd.args(["--set", "fail_init=1"]);
+        }
+        if !p.gates.is_empty() || p.fail_init {
             cmd.env("LD_PRELOAD", shim).env("VERIF_DBPATH", db.display().to_string()).env("VERIF_GATES", gates.join(";"));
         } else {
             cmd.env_remove("LD_PRELOAD");
@@ -249,7 +281,7 @@ pub fn run_case(c: &Case, dir: &Path, exe: &Path, shim: &str, n: u64) -> Outcome
         }
     }
     for l in &logs {
-        if l.outcome != "ok" {
+        if l.outcome != "ok" && l.outcome != "error-expected" {
             o.violations.push((format!("opener-{}", l.outcome), format!("[{}] opener {}: {}", c.label, l.id, l.detail)));
         }
     }
@@ -308,7 +340,7 @@ pub fn run(ctx: &Ctx) -> Shard {
         for _ in 0..n {
             let k = 2 + rng.usize(2);
             let existing = rng.chance(1, 2);
-            let procs = (0..k).map(|_| Proc { soft_ms: 0, delay_us: rng.below(3000), hold_us: rng.below(5000), gates: vec![] }).collect();
+            let procs = (0..k).map(|_| Proc { fail_init: false, soft_ms: 0, delay_us: rng.below(3000), hold_us: rng.below(5000), gates: vec![] }).collect();
             cases.push(Case { label: format!("{} processes, seeded offsets, existing={}", k, existing), existing, procs });
         }
     }
